@@ -891,6 +891,44 @@ impl Operator<i64> for SLog {
     }
 }
 
+/// a probe whose result tells which application produced it (the i-th application returns x + 100 * (i + 1) and
+/// draws one word)
+pub struct SSeq {
+    calls: std::cell::Cell<i64>,
+}
+impl Composable for SSeq {}
+impl Operator<i64> for SSeq {
+    type Output = (i64, u32);
+    type Error = SErr;
+    fn apply<R: Rng + ?Sized>(&self, x: i64, rng: &mut R) -> Result<(i64, u32), SErr> {
+        let n = self.calls.get() + 1;
+        self.calls.set(n);
+        Ok((x + 100 * n, rng.next_u32()))
+    }
+}
+
+/// Repetition: slot i of the result holds what the i-th application returned (and drew).
+fn repeat_order_case(kind: u8) -> Result<bool, Fail> {
+    let mut rng = Counting::new(7);
+    let mut expect_rng = Counting::new(7);
+    let words: Vec<u32> = (0..5).map(|_| expect_rng.next_u32()).collect();
+    let probe = SSeq { calls: std::cell::Cell::new(0) };
+    let got: Vec<(i64, u32)> = match kind {
+        20 => probe.apply_n_times::<3>().apply(5, &mut rng).map(|a| a.to_vec()),
+        21 => probe.apply_n_times::<4>().apply(5, &mut rng).map(|a| a.to_vec()),
+        _ => probe.apply_n_times::<5>().apply(5, &mut rng).map(|a| a.to_vec()),
+    }
+    .map_err(|e| Fail::new("compose/spurious-error", format!("repeating an operator that cannot fail: {e}")))?;
+    let want: Vec<(i64, u32)> = (0..got.len()).map(|i| (5 + 100 * (i as i64 + 1), words[i])).collect();
+    ensure!(
+        got == want,
+        "compose/repeat-result-order",
+        "apply_n_times::<{}>: the result is {got:?}; slot i must hold what the i-th application returned and drew: {want:?}",
+        got.len()
+    );
+    Ok(false)
+}
+
 /// A statically typed chain *inside* a map: `make_vec.then_map(a.then(b))` (and `a.and(b)`, and a chain
 /// inside a chain) visits the elements one after the other, running the whole inner chain on each -
 /// a b a b a b, never a a a b b b - and stops at the first failure.
@@ -1032,6 +1070,9 @@ fn judge_chains<E: StdError + miette::Diagnostic + 'static>(what: &str, e: &E, d
 }
 
 fn static_chain_case(kind: u8, failing: u8, call: u32) -> Result<bool, Fail> {
+    if kind >= 20 {
+        return repeat_order_case(kind);
+    }
     if kind >= 16 {
         return chain_inside_map_case(kind, failing, call);
     }
@@ -1139,7 +1180,7 @@ fn static_chain_case(kind: u8, failing: u8, call: u32) -> Result<bool, Fail> {
 
 fn static_error_chains(ctx: &mut Ctx) {
     let mut cases = vec![];
-    for kind in 0u8..20 {
+    for kind in 0u8..23 {
         for failing in 0u8..4 {
             for call in 0u32..3 {
                 cases.push((kind, failing, call));
@@ -1160,7 +1201,7 @@ fn static_error_chains(ctx: &mut Ctx) {
 }
 
 pub fn run(ctx: &mut Ctx) {
-    ctx.rule = "compositions: generated spec trees (depth <= 6) over then / and / map (array, tuple, Vec) / apply_n_times<0..3> / apply_twice().then_map / Identity / Constant around probe operators that log (call order, input seen, words drawn) and fail at a scripted call; every combinator node is the crate's real type (children boxed as the crate's Box<dyn DynOperator>), compared with a reference interpreter of the spec: same calls in the same order with the same inputs, same words at the same stream offsets, nothing after the first failure, final generator state, value, and the failing part recovered from the error value. static error chains: statically typed then / and / then_map (array, tuple, Vec) compositions of probes with an error type that is both std Error and miette Diagnostic - the source() and diagnostic_source() walks show the same levels down to the failing probe and name the failing element; the same combinators over probes whose error type is zero-sized (and the library's own EmptyPopulation under apply_twice): a failure stops the pipeline and comes back as an error; statically typed chains (then, and, then.then) as the mapped operator of a Vec map: the elements are visited one after the other with the whole inner chain run on each (order of calls and of draws). wrappers: Select / Mutate / Recombine (by value and by reference), GenomeExtractor, Identity, Constant and the usual select-twice -> extract -> recombine -> mutate -> score pipeline against the stages run by hand from an equal generator state. non-trivial = depth >= 2 and (a scripted failure or >= 2 random-drawing probes); distinct by JSON encoding".into();
+    ctx.rule = "compositions: generated spec trees (depth <= 6) over then / and / map (array, tuple, Vec) / apply_n_times<0..3> / apply_twice().then_map / Identity / Constant around probe operators that log (call order, input seen, words drawn) and fail at a scripted call; every combinator node is the crate's real type (children boxed as the crate's Box<dyn DynOperator>), compared with a reference interpreter of the spec: same calls in the same order with the same inputs, same words at the same stream offsets, nothing after the first failure, final generator state, value, and the failing part recovered from the error value. static error chains: statically typed then / and / then_map (array, tuple, Vec) compositions of probes with an error type that is both std Error and miette Diagnostic - the source() and diagnostic_source() walks show the same levels down to the failing probe and name the failing element; the same combinators over probes whose error type is zero-sized (and the library's own EmptyPopulation under apply_twice): a failure stops the pipeline and comes back as an error; statically typed chains (then, and, then.then) as the mapped operator of a Vec map: the elements are visited one after the other with the whole inner chain run on each (order of calls and of draws); apply_n_times::<3..5> with a probe whose results tell the applications apart (slot i holds the i-th result). wrappers: Select / Mutate / Recombine (by value and by reference), GenomeExtractor, Identity, Constant and the usual select-twice -> extract -> recombine -> mutate -> score pipeline against the stages run by hand from an equal generator state. non-trivial = depth >= 2 and (a scripted failure or >= 2 random-drawing probes); distinct by JSON encoding".into();
     ctx.assumptions.push("the failing part is read from the error's Debug/Display text (the error types' fields are private); if that text cannot be parsed the path is reported as unobservable, not as a violation".into());
     let (n, nw) = ctx.tier.pick((300_000u32, 100_000u32), (6_000_000, 1_000_000));
     ctx.run_prop("compositions", n, strategy, oracle);
